@@ -89,6 +89,9 @@ func (a Assn) toks(cfg SPCfg) []string {
 	if strings.HasPrefix(wrapTok, "b") {
 		wrapTok = "b" // every flavour of undecryptable ciphertext is one thing for the model
 	}
+	if strings.HasPrefix(wrapTok, "e") {
+		wrapTok = "e" // and every way of writing a decryptable one
+	}
 	t := []string{wrapTok, sigState(a.Sig, cfg), encInt(a.II), encStr(a.issuerStr())}
 	if a.Subject == nil {
 		t = append(t, "-")
@@ -269,7 +272,7 @@ func (b *builder) assertionEl(a Assn, n int) *etree.Element {
 		ea := etree.NewElement("saml:EncryptedAssertion")
 		ea.AddChild(ed)
 		return ea
-	case "e", "b", "b-spkey", "b-empty", "b-blank", "b-ivonly", "b-truncated", "b-flipped", "b-nokey", "b-noroot-empty", "b-noroot-space", "b-noroot-comment", "b-noroot-pi", "b-key-empty", "b-key-truncated":
+	case "e", "e-nodigest", "e-pkcs15", "b", "b-spkey", "b-empty", "b-blank", "b-ivonly", "b-truncated", "b-flipped", "b-nokey", "b-noroot-empty", "b-noroot-space", "b-noroot-comment", "b-noroot-pi", "b-key-empty", "b-key-truncated":
 		doc := etree.NewDocument()
 		doc.SetRoot(el)
 		buf, err := doc.WriteToBytes()
@@ -292,9 +295,20 @@ func (b *builder) assertionEl(a Assn, n int) *etree.Element {
 		enc := xmlenc.OAEP()
 		enc.BlockCipher = xmlenc.AES128CBC
 		enc.DigestMethod = &xmlenc.SHA1
+		if a.Wrap == "e-pkcs15" {
+			// rsa-1_5 key transport: its EncryptionMethod never carries a DigestMethod
+			enc = xmlenc.PKCS1v15()
+			enc.BlockCipher = xmlenc.AES128CBC
+		}
 		ed, err := enc.Encrypt(cert, buf, nil)
 		must(err)
 		ed.CreateAttr("Type", "http://www.w3.org/2001/04/xmlenc#Element")
+		if a.Wrap == "e-nodigest" {
+			// rsa-oaep-mgf1p relying on its default digest (SHA-1): the optional DigestMethod element left out
+			if dm := ed.FindElement(".//EncryptedKey/EncryptionMethod/DigestMethod"); dm != nil {
+				dm.Parent().RemoveChild(dm)
+			}
+		}
 		// malformed content ciphertext under an intact, correctly wrapped key: the content CipherValue is the one directly
 		// below EncryptedData/CipherData (the other one, below KeyInfo/EncryptedKey, is the wrapped key); "-key" flavours
 		// damage the wrapped key's value instead
